@@ -179,7 +179,7 @@ VERUS_TRUSTED = {
     "irq": ["extraction rules R1-R6,R9", "external_body: Cpu::interrupt with the contract 'enters through the given vector once, leaves the queue alone' (its body: Kani harness c06_interrupt_entry)",
             "vstd specification of VecDeque::push_back/pop_front"],
     "run": ["extraction rules R1-R9 (unit = cfg(test) configuration without the socket block)",
-            "external_body callee contracts: fetch, exec, try_interrupt, init_registers, send_ready_message, send_sync_message, update_modules_link, print_er (frame: none touches the time-base fields)",
+            "external_body callee contracts: fetch, exec, try_interrupt, init_registers, send_ready_message, send_sync_message, timer8_0_link (the call of update_timer8_0 inside update_modules), print_er (frame: none touches the time-base fields)",
             "host-time statements dropped after a mechanical non-interference check (no `self`, assign host locals only)",
             "assume(self.state_sum < 2^62) at the loop head; global size_of usize == 8"],
 }
